@@ -137,6 +137,12 @@ class Unit:
                 continue
             text, n = rx.r7_desugar_for(text, frm, to)
             out.count('R7', n)
+        # number the R7 iterators in source order (nested loops must not shadow each other in invariants)
+        k = 0
+        while 'let mut verif_it = ' in text:
+            k += 1
+            text = text.replace('let mut verif_it = ', 'let mut verif_it%d = ' % k, 1)
+            text = text.replace('match verif_it.next()', 'match verif_it%d.next()' % k, 1)
         for sc, is_re, frm, to in self.substs:
             if sc != '*' and sc != scope and not (sc.endswith('*') and scope.startswith(sc[:-1])):
                 continue
@@ -176,9 +182,11 @@ class Unit:
         outl = []
         for ln in lines:
             st = ln.strip()
-            if st.startswith('//@import '):
+            if st.startswith('//@splice '):
+                outl += self.load_template(os.path.join(UNITS, st.split()[1]))
+            elif st.startswith('//@import '):
                 other = st.split()[1]
-                outl += self.load_template(os.path.join(UNITS, other, 'unit.vrs'), exported_only=True)
+                outl += ['\x00' + x.lstrip('\x00') for x in self.load_template(os.path.join(UNITS, other, 'unit.vrs'), exported_only=True)]
             elif st in ('//@begin-export', '//@end-export'):
                 continue
             else:
@@ -189,6 +197,8 @@ class Unit:
     def assemble(self, canary=False):
         out = Out()
         tmpl = self.load_template(self.path)
+        self.imported_lines = [ln.startswith('\x00') for ln in tmpl]
+        tmpl = [ln[1:] if ln.startswith('\x00') else ln for ln in tmpl]
         i = 0
         n = len(tmpl)
         impl_ctx = None   # dict(file, item, subs, emitted=set(), trait_impl)
@@ -202,6 +212,7 @@ class Unit:
                 continue
             parts = st[3:].split()
             d = parts[0] if parts else ''
+            self.cur_imported = self.imported_lines[i]
             arg = st[3 + len(d):].strip()
             if d == 'unit':
                 pass
@@ -420,7 +431,7 @@ class Unit:
         loops = None
         rets = None
         for (kind, nn), sl in secs.items():
-            if kind in ('sig', 'attr'):
+            if kind in ('sig', 'attr', 'site'):
                 continue
             if kind in ('loop', 'before-loop', 'loop-start', 'loop-end'):
                 if loops is None:
@@ -447,6 +458,42 @@ class Unit:
                 if nn is None or nn < 1 or nn > len(rets):
                     raise Undecided('lost anchor: %s return %s (function has %d)' % (fid, nn, len(rets)))
                 inserts.append((bo + rets[nn - 1], block_lines(sl)))
+            elif kind == 'closure':
+                # R15: the n-th zero-argument closure `|| EXPR` (up to the `;` ending its statement) gets a named result and the
+                # woven ensures: `|| -> (e: T) ensures .. { EXPR }`; first contract line = result type
+                toks = list(rx.sig_tokens(body))
+                occ = []
+                for k in range(1, len(toks) - 1):
+                    a, b2 = toks[k], toks[k + 1]
+                    if body[a[1]] == '|' and body[b2[1]] == '|' and b2[1] == a[2]:
+                        pv = body[toks[k - 1][1]:toks[k - 1][2]]
+                        if pv in ('=', '(', ',', '{', ';', 'move', 'return'):
+                            occ.append(b2[2])
+                if not isinstance(nn, int) or nn < 1 or nn > len(occ):
+                    raise Undecided('lost anchor: %s closure %s (function has %d zero-argument closures)' % (fid, nn, len(occ)))
+                start_c = occ[nn - 1]
+                # end of the closure expression: `;` at depth 0
+                i2 = start_c
+                endc = None
+                while True:
+                    t = next(rx.sig_tokens(body, i2), None)
+                    if t is None:
+                        break
+                    if body[t[1]] in '([{' and t[0] == 'punct':
+                        i2 = rx.match_close(body, t[1])
+                        continue
+                    if body[t[1]] == ';' and t[0] == 'punct':
+                        endc = t[1]
+                        break
+                    i2 = t[2]
+                if endc is None:
+                    raise Undecided('lost anchor: %s closure %s has no terminating `;`' % (fid, nn))
+                ls = block_lines(sl)
+                rtype = ls[0][0].strip()
+                org = {'kind': 'rewrite', 'rule': 'R15', 'fn': fid}
+                inserts.append((bo + start_c, [(' -> (e: %s)' % rtype, org)] + ls[1:] + [('{', org)]))
+                inserts.append((bo + endc, [('}', org)]))
+                out.count('R15', 1)
             elif kind == 'nested':
                 # contract of a fn item nested in the body: `fn <name>(..) -> T {`
                 m = re.search(r'\bfn\s+%s\b' % re.escape(str(nn)), body)
@@ -512,7 +559,15 @@ class Unit:
                     out.origin.append(org)
         end = len(out.lines)
         props = opts.get('props', ','.join(self.serves)).split(',')
+        sites = []
+        for sec in secs.get(('site', None), []) + [x for (k2, n2), v in secs.items() if k2 == 'site' and n2 is not None for x in v]:
+            for ln, t in sec['lines']:
+                m = re.match(r'\s*(\d+)\s+(=?)(.*?)\s+props=(\S+)\s*$', t)
+                if m:
+                    sites.append({'n': int(m.group(1)), 'exact': m.group(2) == '=', 'text': m.group(3).strip(), 'props': m.group(4).split(',')})
         out.fns.append({'id': fid, 'start': start, 'end': end, 'props': props, 'contracted': has_sig or default,
+                        'imported': getattr(self, 'cur_imported', False), 'safety': opts.get('safety', '').split(',') if opts.get('safety') else None,
+                        'sites': sites,
                         'default': default, 'file': rel, 'src_line': src_line,
                         'diverges': ret is not None and text[ret[0]:ret[1]].strip() == '!'})
         out.raw_extract.append((fid, raw, text))
@@ -561,7 +616,7 @@ def _ensure_comma(lines):
 
 def call_rounds(out):
     """partition contracted fns into rounds such that no fn in a round (syntactically) calls another in it"""
-    fns = [f for f in out.fns if f['contracted'] and not f['diverges']]
+    fns = [f for f in out.fns if f['contracted'] and not f['diverges'] and not f.get('imported')]
     bodies = {}
     for f in fns:
         bodies[f['id']] = '\n'.join(out.lines[f['start'] - 1:f['end']])
@@ -587,8 +642,8 @@ def call_rounds(out):
 
 
 # --------------------------------------------------------------------------------------
-def run_verus(path, extra_args, tag):
-    cmd = [VERUS, path, '--output-json', '--time-expanded', '--error-format=json', '--multiple-errors', '8',
+def run_verus(path, extra_args, tag, multiple_errors=40):
+    cmd = [VERUS, path, '--output-json', '--time-expanded', '--error-format=json', '--multiple-errors', str(multiple_errors),
            '--edition=2018'] + extra_args
     t0 = time.time()
     try:
@@ -685,11 +740,14 @@ def analyse(out, res, unit):
             continue
         # a diagnostic is a verification failure iff verus says so through its message vocabulary
         pl = prim[0]['line_start']
-        f = None
-        for s in spans:
-            f = fn_at(out, s['line_start'])
-            if f:
-                break
+        f = fn_at(out, pl)
+        # postcondition / invariant failures: primary span is the clause (inside the function's woven contract);
+        # precondition failures: primary span is the call site in the caller - the caller is the function that fails
+        if f is None:
+            for s in spans:
+                f = fn_at(out, s['line_start'])
+                if f:
+                    break
         if kind == 'other':
             hard.append(msg)
             continue
@@ -726,6 +784,25 @@ def analyse(out, res, unit):
                 key += '@' + rx.norm_ws(site[2])[:80]
         else:
             props = f['props'] if f else unit.serves
+            if f and kind in ('overflow', 'panic', 'assert', 'bounds', 'division') and f.get('safety'):
+                props = f['safety']
+            if f and f.get('sites'):
+                # which occurrence of the call-site text is the failing line?
+                ltxt = out.lines[pl - 1].strip()
+                for st_ in f['sites']:
+                    hit = (ltxt == st_['text']) if st_['exact'] else (st_['text'] in ltxt)
+                    if not hit:
+                        continue
+                    occ = 0
+                    for k in range(f['start'] - 1, pl):
+                        if out.origin[k].get('kind') != 'src':
+                            continue
+                        lt = out.lines[k].strip()
+                        if (lt == st_['text']) if st_['exact'] else (st_['text'] in lt):
+                            occ += 1
+                    if occ == st_['n']:
+                        props = st_['props']
+                        break
             txt = rx.norm_ws(site[2])[:100] if site else rx.norm_ws(out.lines[pl - 1])[:100]
             key = '%s@%s' % (kind, txt)
         fails.append({'unit': unit.name, 'fn': f['id'] if f else None, 'key': key, 'props': props, 'kind': kind,
@@ -807,7 +884,7 @@ def run_unit(name, canary=True, keep=False):
         r['serves'] = u.serves
         r['rules'] = out.rule_counts
         r['path'] = path
-        with ThreadPoolExecutor(6) as ex:
+        with ThreadPoolExecutor(8) as ex:
             fut = ex.submit(run_verus, path, u.verus_args, name)
             futc = []
             if canary:
@@ -816,7 +893,7 @@ def run_unit(name, canary=True, keep=False):
                     outc = uc.assemble(canary=frozenset(rnd))
                     pathc = os.path.join(BUILD, 'u_%s_canary%d.rs' % (name, k))
                     open(pathc, 'w').write(outc.text())
-                    futc.append((rnd, uc, outc, ex.submit(run_verus, pathc, uc.verus_args, '%s-canary%d' % (name, k))))
+                    futc.append((rnd, uc, outc, ex.submit(run_verus, pathc, uc.verus_args, '%s-canary%d' % (name, k), 1)))
             res = fut.result()
             resc = [(rnd, uc, outc, f.result()) for rnd, uc, outc, f in futc]
         r['cmd'] = res['cmd']
@@ -925,13 +1002,30 @@ def check(prop, tier):
         for o in r['obligations']:
             if prop in o['props']:
                 obligations.append(dict(o, unit=r['unit']))
+    # units import each other's exports: the same function / obligation may appear in several units - count and report once
+    seen_ob = set()
+    uniq = []
+    for o in obligations:
+        k = (o['fn'], o['ob'])
+        if k not in seen_ob:
+            seen_ob.add(k)
+            uniq.append(o)
+    obligations = uniq
+    seen_v = set()
+    uv = []
+    for f in violations:
+        k = (f['fn'], f['key'])
+        if k not in seen_v:
+            seen_v.add(k)
+            uv.append(f)
+    violations = uv
     failed_keys = set()
     for r in results:
         for f in r['fails']:
             if prop in f['props']:
-                failed_keys.add((r['unit'], f['fn'], f['label'] and '[%s]' % f['label'] or 'body-safety'))
+                failed_keys.add((f['fn'], f['label'] and '[%s]' % f['label'] or 'body-safety'))
     n_ob = len(obligations)
-    n_dis = len([o for o in obligations if (o['unit'], o['fn'], o['ob']) not in failed_keys])
+    n_dis = len([o for o in obligations if (o['fn'], o['ob']) not in failed_keys])
     extra = run_extra(prop, tier, results)
     for e in extra:
         undecided += e.get('undecided', [])
